@@ -209,3 +209,12 @@ Theorem C04_legacy_go_get_never_panics : forall neg len a keyeq,
   (0 <= len <= int64_max)%Z -> IndexTie4.atoi_ok4 a -> IndexGen4.idx4_get_gen neg len a keyeq <> IndexGen4.GPanic4.
 Proof. exact IndexTie4.get4_gen_never_panics. Qed.
 Print Assumptions C04_legacy_go_get_never_panics.
+
+(* ---- the string decoder unquoteBytes (every member name and string the library decodes) as re-translated from
+   decode.go on every run: no index, slice or EncodeRune write out of range, for EVERY byte string (UnquoteTie.v) ---- *)
+From JP Require UnquoteTie.
+From JP.gen Require UnquoteGen.
+Theorem C04_go_string_decoder_never_panics : forall s,
+  UnquoteGen.unquote_full_gen s <> UnquoteGen.UPanic /\ UnquoteGen.unquote_full_gen s <> UnquoteGen.UFuel.
+Proof. exact UnquoteTie.unquote_full_gen_no_panic. Qed.
+Print Assumptions C04_go_string_decoder_never_panics.
